@@ -3,6 +3,7 @@ package main
 // C12 (and the DHCPv6 half of C13): raw datagrams through HandleMsg6 via the capture hook.
 
 import (
+	"os"
 	"bytes"
 	"errors"
 	"fmt"
@@ -634,7 +635,8 @@ func runListen6(c *Ctx) {
 		ip   net.IP
 		zone string
 	}
-	for _, lc := range []lcase{{net.ParseIP("::1"), ""}, {net.IPv6unspecified, ""}, {net.ParseIP("::1"), "lo"}} {
+	for _, lc := range []lcase{{net.ParseIP("::1"), ""}, {net.IPv6unspecified, ""}, {net.ParseIP("::1"), "lo"},
+		{net.ParseIP("ff02::1:2"), "lo"}, {net.ParseIP("ff05::1:3"), "lo"}} {
 		var sents []sent6
 		l, err := server.VerifListen6(&net.UDPAddr{IP: lc.ip, Port: 0, Zone: lc.zone}, nil, func(p []byte, cm *ipv6.ControlMessage, dst net.Addr) {
 			sents = append(sents, sent6{p, cm, dst})
@@ -642,6 +644,19 @@ func runListen6(c *Ctx) {
 		if err != nil {
 			c.Notes = append(c.Notes, fmt.Sprintf("listen6(%v%%%s) failed: %v", lc.ip, lc.zone, err))
 			c.Count("listen6:unavailable")
+			continue
+		}
+		if lc.ip.IsMulticast() {
+			// a listener on All_DHCP_Relay_Agents_and_Servers / All_DHCP_Servers hears relayed requests only as a
+			// member of the group on its interface (the kernel lists memberships in /proc/net/igmp6)
+			c.Evals++
+			if member, known := groupMember("lo", lc.ip); known && !member {
+				c.vio("C12", "listen6-group-not-joined", fmt.Sprintf("the listener opened on [%v%%%s] has not joined that multicast group on the interface: requests relayed to the group never reach it, so they are never answered", lc.ip, lc.zone),
+					map[string]interface{}{"listen": fmt.Sprintf("[%v%%%s]", lc.ip, lc.zone)})
+			} else if known {
+				c.Count("listen6:group-joined")
+			}
+			l.CloseSocket()
 			continue
 		}
 		port := l.LocalAddr().(*net.UDPAddr).Port
@@ -696,4 +711,21 @@ func runListen6(c *Ctx) {
 		l.CloseSocket()
 	}
 	_ = strings.Join
+}
+
+// groupMember: is the interface a member of the IPv6 multicast group, as /proc/net/igmp6 lists it
+// (known = false when the file cannot be read)
+func groupMember(ifname string, group net.IP) (member bool, known bool) {
+	data, err := os.ReadFile("/proc/net/igmp6")
+	if err != nil {
+		return false, false
+	}
+	want := fmt.Sprintf("%x", []byte(group.To16()))
+	for _, ln := range strings.Split(string(data), "\n") {
+		f := strings.Fields(ln)
+		if len(f) >= 3 && f[1] == ifname && strings.EqualFold(f[2], want) {
+			return true, true
+		}
+	}
+	return false, true
 }
